@@ -260,7 +260,13 @@ pub fn reverse_position_reply(
         swap.trader.clone(),
     )?;
 
-    let previous_margin = Integer::new_negative(position.margin);
+    // the old position is settled here: charge the funding it owes since its checkpoint
+    let RemainMarginResponse {
+        margin: margin_after_funding,
+        ..
+    } = calc_remain_margin_with_funding_payment(deps.as_ref(), position.clone(), Integer::zero())?;
+
+    let previous_margin = Integer::new_negative(margin_after_funding);
 
     // reset the position in order to reverse
     position = clear_position(env, position)?;
